@@ -75,6 +75,45 @@ theorem values_valid_until_return (immutable : Bool) (r : Row) (hr : r ∈ Facts
   case reqobj => exact absurd rfl hobj
   all_goals (refine ⟨_, rfl, ?_⟩; first | rfl | (cases immutable <;> rfl))
 
+/-! ### Inside one handler: accessors do not disturb each other -/
+
+/-- **Obligation over the regenerated table.** No accessor (method of DefaultCtx / DefaultReq /
+    DefaultRes, generic helper) writes recycled storage in place – context buffers reused through
+    `append(f[:0], …)`, emptied containers, fasthttp mutators – apart from `Path` (on the handler's own
+    override) and `Body` (installs and restores private copies). -/
+theorem accessors_do_not_write_recycled_storage : Facts.rows.all Row.writesAllowed = true := by decide
+
+/-- A trace of calls of read-only accessors leaves the recycled storage unchanged. -/
+theorem readOnly_trace_keeps_store (st : Store) (tr : List Step) (h : tr.all Step.isReadOnly = true) :
+    st.afterSteps tr = st := by
+  induction tr generalizing st with
+  | nil => rfl
+  | cons s tr ih =>
+    simp only [List.all_cons, Bool.and_eq_true] at h
+    cases s with
+    | readOnlyCall => exact ih st h.2
+    | otherCall ws => simp [Step.isReadOnly] at h
+
+/-- **Half without the option, across accessor calls.** In either configuration, a value obtained from
+    any accessor of the table is still correct after the handler has called any number of read-only
+    accessors (every row of the table except `Path` with an override and `Body`, by
+    `accessors_do_not_write_recycled_storage`): it stays valid until the handler returns. -/
+theorem values_valid_across_accessor_calls (immutable : Bool) (r : Row) (hr : r ∈ Facts.rows) (ret : Ret)
+    (hret : ret ∈ r.rets) (s : Src) (hs : s ∈ ret.srcs) (hobj : s ≠ .reqobj) (st : Store) (site : Site)
+    (tr : List Step) (htr : tr.all Step.isReadOnly = true) :
+    ∃ v, materialise immutable st site s = some v ∧ v.read (st.afterSteps tr) = expected st site s := by
+  obtain ⟨v, hm, hv⟩ := values_valid_until_return immutable r hr ret hret s hs hobj st site
+  exact ⟨v, hm, by rw [readOnly_trace_keeps_store st tr htr, hv]⟩
+
+/-- rows that are read-only outright: everything but `Path`, `Body` and their `Req.` twins -/
+example : (Facts.rows.filter fun r => !r.readOnly).map (·.name) = ["Body", "Path", "Req.Body", "Req.Path"] := by decide
+/-- a scratch buffer refilled by an accessor is rejected -/
+example : (Row.mk .ctx "Cookies" [⟨.always, [.imm, .arg]⟩] ["scratch"]).writesAllowed = false := by decide
+/-- without the read-only hypothesis the statement fails: a call that rewrites the buffer changes a view -/
+example :
+    let st : Store := fun _ => b "sid=alpha"
+    (Val.view 0 4 5).read (st.afterSteps [.otherCall [⟨0, b "sid=omega"⟩]]) ≠ (Val.view 0 4 5).read st := by decide
+
 /-! ### Derived values -/
 
 /-- **Values derived from stable values are stable.** A sub-slice (substring, split piece, trimmed
@@ -177,11 +216,11 @@ example :
 
 /-- `okImmutable` rejects a row that returns an alias on a reachable site, accepts it when that
     site is only reachable without the option. -/
-example : (Row.mk .ctx "X" [⟨.always, [.imm, .alias]⟩]).okImmutable = false := by decide
-example : (Row.mk .ctx "X" [⟨.immOnly, [.owned]⟩, ⟨.mutOnly, [.alias]⟩]).okImmutable = true := by decide
-example : (Row.mk .ctx "X" [⟨.always, [.unknown]⟩]).okImmutable = false := by decide
+example : (Row.mk .ctx "X" [⟨.always, [.imm, .alias]⟩] []).okImmutable = false := by decide
+example : (Row.mk .ctx "X" [⟨.immOnly, [.owned]⟩, ⟨.mutOnly, [.alias]⟩] []).okImmutable = true := by decide
+example : (Row.mk .ctx "X" [⟨.always, [.unknown]⟩] []).okImmutable = false := by decide
 /-- a Bind method passing a request object to a binder the table does not know is not covered -/
-example : (Row.mk .bind "Bind.Trailer:source" [⟨.always, [.reqobj]⟩]).bindCovered Facts.rows = false := by decide
+example : (Row.mk .bind "Bind.Trailer:source" [⟨.always, [.reqobj]⟩] []).bindCovered Facts.rows = false := by decide
 example : (Facts.rows.filter fun r => r.kind == .bind && r.rets.any fun ret => ret.srcs.contains .reqobj).length = 5 := by decide
 
 end C06
